@@ -1,4 +1,5 @@
 import SockModel.Model.TlsLemmas
+import SockModel.Model.HsLemmas
 /-!
 # C18  TLS sockets encrypt, need a TLS peer, and always complete the handshake
 
@@ -862,28 +863,250 @@ theorem legacy_round_limit_violates {W : World ω} (C : Cfg) (hfix : C.fixRoundR
 example : WriteProgress idleEngine := by
   intro s d; exact .ret ⟨1, rfl, by decide⟩
 
+end SockModel.Tls
+
 /-! ## "the handshake ... completes for every combination of sync/async endpoints, timeout modes and order of calls"
 
-NOT PROVED as a single liveness theorem.  The intended statement (DESIGN §5 C18, kept here verbatim in intent):
+FULL STATEMENT (not proved; DESIGN §5 C18):
 
-  theorem handshake_completes (with the reference engine `HsEngine`: flights C→S, S→C, C→S, then application
-  data, each flight a byte string that may arrive in any segmentation):
-    for every pairing of {sync, async} endpoints, every timeout mode on each side, every order of the two sides'
-    first calls and every segmentation of the flights on the wire, after finitely many calls / driver steps both
-    engines are `init_finished` (measure: undelivered handshake bytes + flights remaining), after which
-    tlsRead/tlsWrite refine receive/send.
+  theorem handshake_completes : for every pairing of {sync, async} endpoints, every timeout mode on each side
+  (unlimited, zero, limited), every order in which the two sides first send or receive, every segmentation of the
+  flights on the wire and every behaviour of the kernel's send buffers (partial / refused writes), after finitely many
+  calls / driver steps of a fair schedule both engines are `init_finished`, and thereafter `tlsRead`/`tlsWrite`
+  refine the plain `receive`/`send` (so that C01, C02, C03, C07, C15 hold unchanged).
 
-What this file does carry towards it, for EVERY engine (not only a reference engine):
-* `pollout_protocol`, `pollout_restored`, `driverQuery_protocol` - the driver keeps polling for what the handshake
-  needs and queued data cannot be stranded behind it (the async half of the argument);
-* `receive_leaves_no_stale_want_read`, `send_leaves_no_stale_want_write` - a call that finds nothing to do never
-  poisons the next call in the other direction (the two ways the polling call orders used to deadlock, F7/F10);
-* `tlsWrite_complete` - a Send is not cut short by the round limit (F9);
-* `tlsWrite_retry_same_data` - retries are well-formed, so the engine can always continue where it stopped.
-The composition of two endpoints over a channel with `HsEngine` (the expected fallback
-`handshake_completes_partial`: both endpoints synchronous, unlimited or zero timeout) was not reached.  Completion of
-the handshake for all pairings / timeout modes / call orders / segmentations is therefore established only by the
-implementation matrix of `./check C18` (enumerated completely in the thorough tier: every case must end with both
-sides `init_finished` and both payloads delivered), against real OpenSSL. -/
+PROVED below: `handshake_completes_partial` - the restriction to
+  * both endpoints **synchronous**, every call with **timeout 0**,
+  * the **round-robin polling schedule** `[c.Send(dc,0), s.Receive(n,0), s.Send(ds,0), c.Receive(n,0)]` (the call
+    shape on which the pre-319faf2 / pre-ee81033 code stalled after the handshake),
+  * the **reference engine** `Hs.engine` (three flights of arbitrary positive sizes `k1 k2 k3`),
+  * a **healthy channel**: two FIFO byte counters, every write accepted in full, reads cut by an arbitrary
+    segmentation oracle (any list of cut points),
+for the REAL glue model (`Tls.sendT` / `Tls.receiveT` with their retry loops, `HandleLastError` gating, `pendingSend`
+rule - not a simplification), any `Cfg` with at least two handshake rounds (in particular the current code and all
+three legacy variants: the repairs concern the payload phase, see the `legacy_*_violates` theorems above).
+Still resting on the exhaustive implementation matrix of `./check C18` only: asynchronous endpoints, unlimited and
+limited timeouts, other call orders, short / refused writes, and the agreement of `Hs.engine` with OpenSSL. -/
+namespace SockModel.Hs
+open SockModel.Net SockModel.Tls
 
+/-- (a) progress: one round of the polling schedule keeps the invariant, never increases the measure
+`mu` = work left on both sides, and strictly decreases it while the handshake is unfinished; stages only advance. -/
+theorem round_progress (C : Cfg) (hC : 1 < C.stepsMax) (P : HsP) (dc ds : Bytes) (hdc : dc ≠ []) (hds : ds ≠ [])
+    (n : Nat) (hn : 1 ≤ n) (y : Sys) (hinv : SysInv P dc ds y) :
+    SysInv P dc ds (y.round C P dc ds n) ∧ mu P (y.round C P dc ds n) ≤ mu P y ∧
+    (¬ y.bothFinished → mu P (y.round C P dc ds n) < mu P y) ∧
+    y.ec.stage ≤ (y.round C P dc ds n).ec.stage ∧ y.es.stage ≤ (y.round C P dc ds n).es.stage := by
+  obtain ⟨i1, e1, w1, p1, c1, s1⟩ := stepC_spec C hC P dc ds hdc n hn y hinv (.send dc) (Or.inl rfl)
+  obtain ⟨i2, e2, w2, p2, c2, s2⟩ := stepS_spec C hC P dc ds hds n hn _ i1 (.recv n) (Or.inr rfl)
+  obtain ⟨i3, e3, w3, p3, c3, s3⟩ := stepS_spec C hC P dc ds hds n hn _ i2 (.send ds) (Or.inl rfl)
+  obtain ⟨i4, e4, w4, p4, c4, s4⟩ := stepC_spec C hC P dc ds hdc n hn _ i3 (.recv n) (Or.inr rfl)
+  have q4 := congrArg (work P) e4; have q3 := congrArg (work P) e3
+  have q2 := congrArg (work P) e2; have q1 := congrArg (work P) e1
+  have t4 := congrArg Hs.stage e4; have t3 := congrArg Hs.stage e3
+  have t2 := congrArg Hs.stage e2; have t1 := congrArg Hs.stage e1
+  unfold Sys.round mu
+  refine ⟨i4, by omega, ?_, by omega, by omega⟩
+  intro hnf
+  rcases can_progress P dc ds y hinv hnf with hc | hs
+  · have := p1 hc; omega
+  · have hs' : CanProg false (y.step C P true (.send dc)).es (y.step C P true (.send dc)).ch := by
+      rw [e1]
+      obtain ⟨h1, h2⟩ := hs
+      refine ⟨h1, ?_⟩
+      rcases h2 with h2 | h2
+      · exact Or.inl h2
+      · right; simp only [Chan.inb, Bool.false_eq_true, if_false] at h2 ⊢; omega
+    have := p2 hs'
+    omega
+
+theorem rounds_progress (C : Cfg) (hC : 1 < C.stepsMax) (P : HsP) (dc ds : Bytes) (hdc : dc ≠ []) (hds : ds ≠ [])
+    (n : Nat) (hn : 1 ≤ n) : ∀ (k : Nat) (y : Sys), SysInv P dc ds y →
+      SysInv P dc ds (Sys.rounds C P dc ds n k y) ∧
+      ((Sys.rounds C P dc ds n k y).bothFinished ∨ mu P (Sys.rounds C P dc ds n k y) + k ≤ mu P y) ∧
+      (y.bothFinished → (Sys.rounds C P dc ds n k y).bothFinished) := by
+  intro k
+  induction k with
+  | zero => intro y h; exact ⟨h, Or.inr (by simp [Sys.rounds]), fun h => h⟩
+  | succ k ih =>
+    intro y h
+    obtain ⟨r1, r2, r3, r4, r5⟩ := round_progress C hC P dc ds hdc hds n hn y h
+    obtain ⟨j1, j2, j3⟩ := ih _ r1
+    have keep : y.bothFinished → (y.round C P dc ds n).bothFinished := by
+      intro hb; exact ⟨by have := hb.1; omega, by have := hb.2; omega⟩
+    refine ⟨j1, ?_, fun hb => j3 (keep hb)⟩
+    simp only [Sys.rounds]
+    rcases j2 with j2 | j2
+    · exact Or.inl j2
+    · by_cases hb : y.bothFinished
+      · exact Or.inl (j3 (keep hb))
+      · right; have := r3 hb; omega
+
+/-- **handshake_completes_partial** (restriction: both endpoints synchronous, timeout 0, round-robin polling
+schedule, reference engine, healthy channel - see the section comment for the full statement).
+For all flight sizes, all payloads (non-empty), all receive sizes ≥ 1, **every segmentation** of the wire, and every
+glue configuration with at least two handshake rounds: after at most `2·(k1+k2+k3+3)` rounds of
+`[c.Send(dc,0), s.Receive(n,0), s.Send(ds,0), c.Receive(n,0)]` - and after any larger number - both engines are
+`init_finished`, and (b) **no call on the way threw or hit an assert** (`faults = 0`). -/
+theorem handshake_completes_partial (C : Cfg) (hC : 1 < C.stepsMax) (P : HsP) (dc ds : Bytes) (hdc : dc ≠ [])
+    (hds : ds ≠ []) (n : Nat) (hn : 1 ≤ n) (segs : List Nat) (m : Nat) (hm : 2 * (P.k1 + P.k2 + P.k3 + 3) ≤ m) :
+    (Sys.rounds C P dc ds n m (Sys.init P segs)).bothFinished ∧
+    (Sys.rounds C P dc ds n m (Sys.init P segs)).faults = 0 := by
+  obtain ⟨h1, h2, _⟩ := rounds_progress C hC P dc ds hdc hds n hn m _ (sysInv_init P dc ds segs)
+  refine ⟨?_, h1.2.2.2.2.2.2⟩
+  rcases h2 with h2 | h2
+  · exact h2
+  · have hmu : mu P (Sys.init P segs) = 2 * (P.k1 + P.k2 + P.k3 + 3) := by
+      simp only [mu, Sys.init, work_init]; omega
+    rw [hmu] at h2
+    have h0 : mu P (Sys.rounds C P dc ds n m (Sys.init P segs)) = 0 := by omega
+    have zero_fin : ∀ h : Hs, work P h = 0 → 3 ≤ h.stage := by
+      intro h hw
+      unfold work at hw
+      by_cases a0 : h.stage = 0
+      · simp [a0] at hw
+      · by_cases a1 : h.stage = 1
+        · simp [a1] at hw
+        · by_cases a2 : h.stage = 2
+          · simp [a2] at hw
+          · omega
+    unfold mu at h0
+    exact ⟨zero_fin _ (by omega), zero_fin _ (by omega)⟩
+
+/-! ### after the handshake: the polling call order keeps working (current code), and stalls for ever before 319faf2 -/
+
+/-- "... after which C01 ... hold unchanged", for the call order that exposed F7: on an established connection
+(reference engine finished), a `Receive(n, 0)` that finds nothing followed by `Send(data, 0)` hands the **whole
+buffer** to the engine - with the current code (319faf2 in), for every state the composition can be in. -/
+theorem send_after_idle_receive_flows (C : Cfg) (hC : 1 < C.stepsMax) (hfix : C.fixRecvReset = true) (P : HsP)
+    (r : Bool) (data : Bytes) (hd : data ≠ []) (n : Nat) (hn : 1 ≤ n) (s : St Hs Chan) (hi : SideInv P r data s)
+    (hfin : 3 ≤ s.e.stage) (s1 : St Hs Chan) (hrecv : receiveT C (chanWorld r) (engine P) s n 0 = (.ok [], s1)) :
+    ∃ s2, sendT C (chanWorld r) (engine P) s1 data 0 = (.ok data.length, s2) := by
+  have hres := recv_spec C (by omega) P r data n hn s hi
+  simp only [callOn, hrecv] at hres
+  obtain ⟨_, hside, ht, _⟩ := hres
+  have hfin1 : 3 ≤ s1.e.stage := by have := ht.st; simp only at this; omega
+  have hne := receive_leaves_no_stale_want_read C hfix (engine P) s s1 n 0 hrecv (by simp [engine, hfin1])
+  have hle : s1.g.lastError = .none := by
+    rcases hside.2.2.2.2.2.1 with h | h
+    · exact h
+    · exact absurd h hne
+  obtain ⟨s2, h2, _⟩ := send_flows C hC P r data hd s1 hside hfin1 hle
+  exact ⟨s2, h2⟩
+
+/-- the state in which the pre-319faf2 code ends up on the polling schedule: both engines finished, both channels
+empty, and both endpoints with WANT_READ cached (left behind by the `Receive` that completed the handshake and then
+found no user data).  It is reached in round 2: round 1 `c.Send` writes C1 and waits for S1; `s.Receive` reads C1,
+writes S1, waits for C2; `s.Send` is gated; `c.Receive` reads S1, writes C2, is finished, finds no data - WANT_READ;
+round 2 `c.Send` is gated; `s.Receive` reads C2, is finished, finds no data - WANT_READ. -/
+def Stalled (P : HsP) (dc ds : Bytes) (y : Sys) : Prop :=
+  SysInv P dc ds y ∧ y.bothFinished ∧ y.ch.cs = 0 ∧ y.ch.sc = 0 ∧
+  y.gc.lastError = .wantRead ∧ y.gs.lastError = .wantRead
+
+theorem stalled_step (C : Cfg) (hleg : C.fixRecvReset = false) (P : HsP) (dc ds : Bytes) (n : Nat) (y : Sys)
+    (h : Stalled P dc ds y) (client : Bool) (c : Call) (hc : c = .send (if client then dc else ds) ∨ c = .recv n) :
+    Stalled P dc ds (y.step C P client c) := by
+  obtain ⟨⟨ic, is, a1, a2, a3, a4, af⟩, hb, hcs, hsc, hlc, hls⟩ := h
+  cases client with
+  | true =>
+    have key : ∃ s', callOn C P true ⟨y.gc, y.ec, y.ch⟩ c = (true, s') ∧ SideInv P true dc s' ∧ s'.e = y.ec ∧
+        s'.w = y.ch ∧ s'.g.lastError = .wantRead := by
+      rcases hc with rfl | rfl
+      · obtain ⟨s', e, i, ee, w, l⟩ := gated_send C P true dc ⟨y.gc, y.ec, y.ch⟩ ic hlc (by simpa [Chan.inb] using hsc)
+        exact ⟨s', by simp [callOn, e, isOk], i, ee, w, l⟩
+      · obtain ⟨s', e, i, ee, w, l⟩ := gated_recv_legacy C hleg P true dc n ⟨y.gc, y.ec, y.ch⟩ ic hlc (by simpa [Chan.inb] using hsc)
+        exact ⟨s', by simp [callOn, e, isOk], i, ee, w, l⟩
+    obtain ⟨s', hcall, hi', hee, hw, hl⟩ := key
+    have hstep : y.step C P true c = { y with gc := s'.g, ec := s'.e, ch := s'.w, faults := y.faults + 0 } := by
+      simp [Sys.step, hcall]
+    rw [hstep]
+    refine ⟨⟨hi', ?_, ?_, ?_, ?_, ?_, ?_⟩, ?_, ?_, ?_, hl, hls⟩
+    · show SideInv P false ds ⟨y.gs, y.es, s'.w⟩; rw [hw]; exact is
+    · show s'.e.stage < 3 → s'.w.cs + rcvd P y.es = sent P s'.e; rw [hee, hw]; exact a1
+    · show sent P s'.e ≤ s'.w.cs + rcvd P y.es; rw [hee, hw]; exact a2
+    · show y.es.stage < 3 → s'.w.sc + rcvd P s'.e = sent P y.es; rw [hee, hw]; exact a3
+    · show sent P y.es ≤ s'.w.sc + rcvd P s'.e; rw [hee, hw]; exact a4
+    · show y.faults + 0 = 0; omega
+    · show 3 ≤ s'.e.stage ∧ 3 ≤ y.es.stage; rw [hee]; exact hb
+    · show s'.w.cs = 0; rw [hw]; exact hcs
+    · show s'.w.sc = 0; rw [hw]; exact hsc
+  | false =>
+    have key : ∃ s', callOn C P false ⟨y.gs, y.es, y.ch⟩ c = (true, s') ∧ SideInv P false ds s' ∧ s'.e = y.es ∧
+        s'.w = y.ch ∧ s'.g.lastError = .wantRead := by
+      rcases hc with rfl | rfl
+      · obtain ⟨s', e, i, ee, w, l⟩ := gated_send C P false ds ⟨y.gs, y.es, y.ch⟩ is hls (by simpa [Chan.inb] using hcs)
+        exact ⟨s', by simp [callOn, e, isOk], i, ee, w, l⟩
+      · obtain ⟨s', e, i, ee, w, l⟩ := gated_recv_legacy C hleg P false ds n ⟨y.gs, y.es, y.ch⟩ is hls (by simpa [Chan.inb] using hcs)
+        exact ⟨s', by simp [callOn, e, isOk], i, ee, w, l⟩
+    obtain ⟨s', hcall, hi', hee, hw, hl⟩ := key
+    have hstep : y.step C P false c = { y with gs := s'.g, es := s'.e, ch := s'.w, faults := y.faults + 0 } := by
+      simp [Sys.step, hcall]
+    rw [hstep]
+    refine ⟨⟨?_, hi', ?_, ?_, ?_, ?_, ?_⟩, ?_, ?_, ?_, hlc, hl⟩
+    · show SideInv P true dc ⟨y.gc, y.ec, s'.w⟩; rw [hw]; exact ic
+    · show y.ec.stage < 3 → s'.w.cs + rcvd P s'.e = sent P y.ec; rw [hee, hw]; exact a1
+    · show sent P y.ec ≤ s'.w.cs + rcvd P s'.e; rw [hee, hw]; exact a2
+    · show s'.e.stage < 3 → s'.w.sc + rcvd P y.ec = sent P s'.e; rw [hee, hw]; exact a3
+    · show sent P s'.e ≤ s'.w.sc + rcvd P y.ec; rw [hee, hw]; exact a4
+    · show y.faults + 0 = 0; omega
+    · show 3 ≤ y.ec.stage ∧ 3 ≤ s'.e.stage; rw [hee]; exact hb
+    · show s'.w.cs = 0; rw [hw]; exact hcs
+    · show s'.w.sc = 0; rw [hw]; exact hsc
+
+/-- (c) **the pre-319faf2 glue is refuted on the same schedule**: once it is in the `Stalled` state (reached in
+round 2, see there), every further round of `[c.Send(dc,0), s.Receive(n,0), s.Send(ds,0), c.Receive(n,0)]` leaves it
+there: the handshake is complete on both sides, both sides call `Send` with a non-empty buffer in every round, and not
+a single payload byte ever enters a channel - the measure "payload still to deliver" stops decreasing for ever.
+(With 319faf2 the state is unreachable - `receive_leaves_no_stale_want_read` - and `send_after_idle_receive_flows`
+shows the `Send` going through.) -/
+theorem legacy_polling_schedule_stalls (C : Cfg) (hleg : C.fixRecvReset = false) (P : HsP) (dc ds : Bytes) (n : Nat) :
+    ∀ (m : Nat) (y : Sys), Stalled P dc ds y →
+      Stalled P dc ds (Sys.rounds C P dc ds n m y) ∧
+      (Sys.rounds C P dc ds n m y).ch.cs = 0 ∧ (Sys.rounds C P dc ds n m y).ch.sc = 0 := by
+  intro m
+  induction m with
+  | zero => intro y h; exact ⟨h, h.2.2.1, h.2.2.2.1⟩
+  | succ m ih =>
+    intro y h
+    have h1 := stalled_step C hleg P dc ds n y h true (.send dc) (Or.inl rfl)
+    have h2 := stalled_step C hleg P dc ds n _ h1 false (.recv n) (Or.inr rfl)
+    have h3 := stalled_step C hleg P dc ds n _ h2 false (.send ds) (Or.inl rfl)
+    have h4 := stalled_step C hleg P dc ds n _ h3 true (.recv n) (Or.inr rfl)
+    exact ih _ h4
+
+/-- the smallest instance: three flights of one byte each -/
+def tinyP : HsP := ⟨1, 1, 1, by decide, by decide, by decide⟩
+
+set_option maxRecDepth 8000 in
+/-- the `Stalled` state IS reached by the pre-319faf2 glue: two rounds of the polling schedule from the initial
+state (evaluated in the kernel for the smallest instance; the trace in the docstring of `Stalled` is independent of
+the flight sizes) -/
+theorem legacy_stall_state_reached :
+    Stalled tinyP [1] [2] (Sys.rounds Cfg.legacyRecvReset tinyP [1] [2] 4 2 (Sys.init tinyP [])) := by
+  simp [Stalled, SysInv, SideInv, Sys.bothFinished, Sys.rounds, Sys.round, WF, sent, rcvd,
+    Sys.step, Sys.init, callOn, sendT, tlsWrite, handleLastError, handleError, setTimeout, setLastError, Cfg.legacyRecvReset,
+    Cfg.current, stepsMaxConst, SockModel.Consts.handshakeStepsMax, writeLoop, writeRound, writeRetry, interp, engine, hsRun, fuel, tinyP,
+    Hs.init, Hs.writes, Hs.next, HsP.flight, appWrite, appRead, bioWrite, bioRead, sendTry, sendNow, receive, recvNow, noteWrite, chanWorld,
+    noteCall, setPending, handleResult, SslAns.toErr, waitUnder, underDeadline, zeros, Chan.addOut, Chan.inb, Chan.takeIn, pick,
+    receiveT, tlsRead, readLoop, readRound, isOk]
+
+/-- **F7 in the composed system** (pre-319faf2): the handshake completes in two rounds of the polling schedule, and
+from then on - for every number `m` of further rounds - both channels stay empty: neither `Send([1])` of the client
+nor `Send([2])` of the server ever gets a byte out.  The same schedule with the current code delivers
+(`send_after_idle_receive_flows`). -/
+theorem legacy_recv_reset_stalls_composition (m : Nat) :
+    let y2 := Sys.rounds Cfg.legacyRecvReset tinyP [1] [2] 4 2 (Sys.init tinyP [])
+    y2.bothFinished ∧ (Sys.rounds Cfg.legacyRecvReset tinyP [1] [2] 4 m y2).ch.cs = 0 ∧
+    (Sys.rounds Cfg.legacyRecvReset tinyP [1] [2] 4 m y2).ch.sc = 0 := by
+  intro y2
+  have h := legacy_stall_state_reached
+  have := legacy_polling_schedule_stalls Cfg.legacyRecvReset rfl tinyP [1] [2] 4 m y2 h
+  exact ⟨h.2.1, this.2.1, this.2.2⟩
+
+/-- the theorem applies to the code as it is (`handshakeStepsMax` as extracted from the source on this run) -/
+example : 1 < Cfg.current.stepsMax := by decide
+
+end SockModel.Hs
+
+namespace SockModel.Tls
 end SockModel.Tls
